@@ -4,7 +4,7 @@
    regenerated from /repo/src (Gen/RpTables.v).  lhash is the left-hash function (any function). *)
 From Coq Require Import String.
 From Verif Require Import Lib.Base Lib.PyStr Lib.Crypto Lib.RpTy Gen.RpTables Model.IdToken Model.RpState
-     Model.RpExamples Proofs.IdToken_proofs Proofs.RpState_proofs.
+     Model.RpExamples Model.RpReuse Proofs.IdToken_proofs Proofs.RpState_proofs Proofs.RpReuse_proofs.
 Open Scope string_scope.
 
 (* Message API (verify_id_token as called by oidc.AuthorizationResponse.verify with check_hash = true and by
@@ -295,3 +295,90 @@ Proof.
   vm_compute. split; [|split; reflexivity].
   do 3 eexists. split; [reflexivity|]. split; [reflexivity|]. split; [reflexivity|]. discriminate.
 Qed.
+
+(* --- round 11 --- *)
+(* AUTHORIZATION REQUESTS UNDER A STATE THAT ALREADY HAS A RECORD.  The state value of a request is the
+   application's to choose (request_args["state"] / the state argument of the authorization service): it may begin a
+   second request under the state of a running session (re-authentication, a retry).  C08_nonce_history assumes every
+   begin comes with a fresh state (fresh_history); here nothing is asked of the states (reuse_history: the nonces are
+   new to the client and the request that goes out carries the nonce).  "The nonce that was sent" for st is then the
+   nonce of the LATEST request the client sent under st (latest_sent), and that is the nonce of every ID Token
+   accepted for st - at the authorization endpoint, the token endpoint or in a refresh response, directly or
+   through the RPHandler; in particular the genuine ID Token of an earlier round under the same state is refused. *)
+Theorem C08_nonce_history_reused_states : forall lhash cfgs pre o w' stored i st vd,
+  reuse_history lhash (init_world cfgs) pre ->
+  step lhash (run lhash (init_world cfgs) pre) o = (w', Ok stored) ->
+  idtoken_op o = true -> has_key (PS "error") stored = false ->
+  op_target (run lhash (init_world cfgs) pre) o = Some i -> accepted_for o stored st ->
+  assoc (verified_name (PS "id_token")) stored = Some (VDict vd) ->
+  exists n, latest_sent i pre st = Some n /\
+    (forall x, assoc (PS "nonce") vd = Some x -> x = VStr n) /\
+    (refresh_of o = None -> assoc (PS "nonce") vd = Some (VStr n)).
+Proof. exact reuse_history_nonce_sent. Qed.
+Print Assumptions C08_nonce_history_reused_states.
+
+(* what latest_sent is: nothing was sent in the empty history; a request of client i under st makes its nonce the
+   latest one for st; no other operation changes it *)
+Theorem C08_latest_sent_begin : forall i ops st n req, latest_sent i (ops ++ [OBegin i st n req]) st = Some n.
+Proof. exact latest_sent_begin. Qed.
+Print Assumptions C08_latest_sent_begin.
+Theorem C08_latest_sent_other : forall i ops o st,
+  (forall n req, o <> OBegin i st n req) -> latest_sent i (ops ++ [o]) st = latest_sent i ops st.
+Proof. exact latest_sent_other. Qed.
+Print Assumptions C08_latest_sent_other.
+
+(* the invariant behind it: after every such history the record of a state names the nonce of the latest request
+   under that state (the record is replaced by a new request, and nothing merged into it later replaces the nonce) *)
+Theorem C08_reuse_invariant : forall lhash cfgs ops i st n,
+  reuse_history lhash (init_world cfgs) ops -> latest_sent i ops st = Some n ->
+  (exists rec, rec_of (run lhash (init_world cfgs) ops) i st = Some rec /\ assoc (PS "nonce") rec = Some (VStr n)) /\
+  n <> [].
+Proof. exact reuse_invariant. Qed.
+Print Assumptions C08_reuse_invariant.
+
+(* the histories of C08_nonce_history are among these, and in them the latest request under a state is its only one *)
+Theorem C08_fresh_history_is_reuse_history : forall lhash ops w,
+  fresh_history lhash w ops -> reuse_history lhash w ops.
+Proof. exact fresh_is_reuse. Qed.
+Print Assumptions C08_fresh_history_is_reuse_history.
+Theorem C08_fresh_latest_is_sent : forall lhash cfgs ops i st n,
+  fresh_history lhash (init_world cfgs) ops -> (latest_sent i ops st = Some n <-> In (st, n) (sent_by i ops)).
+Proof. exact fresh_latest_is_sent. Qed.
+Print Assumptions C08_fresh_latest_is_sent.
+
+(* non-vacuity: ex_reuse_pre (S1 completed with N1, then begun again with N3 and its code response processed) is such
+   a history and not a fresh one; the latest nonce under S1 is N3; the genuine ID Token of the first round (N1) is
+   refused in the token response and in an authorization response for S1, the ID Token with N3 is accepted; the record
+   of S1 was replaced by the new request (no verified ID Token, no access token of the first round), N1 is still a
+   key of the map *)
+Example C08_reused_state_nonvacuous :
+  reuse_history ex_lhash (init_world ex_hist_cfgs) ex_reuse_pre /\
+  ~ fresh_history ex_lhash (init_world ex_hist_cfgs) ex_reuse_pre /\
+  reuses_state ex_lhash (init_world ex_hist_cfgs) ex_reuse_pre = true /\
+  latest_sent ex_iss ex_reuse_pre (PS "S1") = Some (PS "N3") /\
+  (let tok n := OToken ex_iss (PS "S1") (ex_token_resp (Some (ex_tok_te n (PS "diana")))) ex_now in
+   snd (step ex_lhash ex_reuse_world (tok (PS "N1"))) = Err E_ParameterError /\
+   snd (step ex_lhash ex_reuse_world (OAuthz ex_iss (ex_authz_resp (PS "S1") (Some (ex_tok_rs (PS "N1")))) ex_now)) = Err ValueError /\
+   (exists w' stored vd, step ex_lhash ex_reuse_world (tok (PS "N3")) = (w', Ok stored) /\
+      assoc (verified_name (PS "id_token")) stored = Some (VDict vd) /\ assoc (PS "nonce") vd = Some (VStr (PS "N3")))) /\
+  (exists rec, rec_of ex_reuse_world ex_iss (PS "S1") = Some rec /\ assoc (PS "nonce") rec = Some (VStr (PS "N3")) /\
+               assoc (verified_name (PS "id_token")) rec = None /\ assoc (PS "access_token") rec = None) /\
+  map_of ex_reuse_world ex_iss (PS "N1") = Some (PS "S1").
+Proof.
+  assert (Hreq : forall st n v, In (PS "nonce", v) (ex_req st n) -> v = VStr n).
+  { intros st n v H. unfold ex_req in H. cbn [In] in H.
+    repeat (destruct H as [H|H]; [inversion H; try reflexivity; (vm_compute in H; discriminate)|]). destruct H. }
+  split.
+  { unfold ex_reuse_pre, ex_hist_pre. cbn [app reuse_history sound_begin].
+    repeat split; try (vm_compute; (reflexivity || discriminate)); try (apply Hreq). }
+  split.
+  { unfold ex_reuse_pre, ex_hist_pre. cbn [app fresh_history fresh_begin]. intro H.
+    destruct H as (_ & _ & _ & _ & _ & _ & _ & (_ & Hfresh & _) & _). vm_compute in Hfresh. discriminate. }
+  split; [vm_compute; reflexivity|].
+  split; [vm_compute; reflexivity|].
+  split.
+  { vm_compute. repeat split. do 3 eexists. repeat split; reflexivity. }
+  split; [vm_compute; eexists; repeat split; reflexivity|].
+  vm_compute. reflexivity.
+Qed.
+(* --- end round 11 --- *)
